@@ -96,9 +96,10 @@ def run(tier, seed):
             for p in plans:
                 f.write(json.dumps(p, separators=(",", ":")) + "\n")
         trace = os.path.join(wd, "trace.ndjson")
-        rc, err = core.run_harness(vh, "transport", ["--plans", pp, "--trace", trace, "--blobs", os.path.join(wd, "blobs.ndjson")])
-        if rc != 0:
-            raise core.ToolError("transport driver failed: " + err[-2000:])
+        # a driver that dies (abort, stack overflow, refused allocation) or does not come back inside the library is an
+        # observation about the code: reported as a violation, what was recorded before is still analysed
+        from .. import faults as _faults
+        _faults.run_with_watchdog(v, vh, "transport", ["--plans", pp, "--trace", trace, "--blobs", os.path.join(wd, "blobs.ndjson")], wd, plans)
         accepted, rejects = core.tv_all("Trace_TransportWrite", trace, "/dev/null", wd, shards=8, max_rejects=4)
         for r in rejects:
             evs = [json.loads(x) for x in r["run_events"]]
@@ -115,8 +116,9 @@ def run(tier, seed):
         tested = []
         st = [lines[s:e] for (s, e) in runs if json.loads(lines[s]).get("run") == "selftest"]
         sp = os.path.join(wd, "self.ndjson")
-        open(sp, "w").write("\n".join(st[0]) + "\n")
-        if core.tv_once("Trace_TransportWrite", sp, "/dev/null", wd) is None:
+        if st and not v.violations:
+            open(sp, "w").write("\n".join(st[0]) + "\n")
+        if st and not v.violations and core.tv_once("Trace_TransportWrite", sp, "/dev/null", wd) is None:
             tested = selftest.run("Trace_TransportWrite", st[0], "/dev/null", wd, corruptions())
         # full-domain table
         rt, wt = os.path.join(wd, "rt.ndjson"), os.path.join(wd, "wt.ndjson")
